@@ -1701,8 +1701,11 @@ class _VerticalOrbitDynamicsService(_OrbitDynamicsService):
         # Normalized amplitude_z
         amplitude_z_norm = amplitude_z / gamma
         
-        # Phase angle (initial time)
-        phi = 0.0
+        # Phase angle (initial time): start at the z = 0 crossing on the x-axis
+        # (y = z = vx = 0), the symmetric state the z-plane-crossing corrector
+        # assumes (period = 2 * time to the next z = 0 crossing). Starting at
+        # maximum |z| (phi = 0) puts that crossing only a quarter period away.
+        phi = np.pi / 2.0
         
         # Frequency correction
         omega1 = 0.0
@@ -1763,6 +1766,10 @@ class _VerticalOrbitDynamicsService(_OrbitDynamicsService):
         vx = gamma * xdot
         vy = gamma * ydot
         vz = gamma * zdot
+
+        # y, z and vx vanish analytically at tau1 = pi/2; drop the cos(pi/2)
+        # round-off so that the seed lies exactly on the section.
+        ry = rz = vx = 0.0
         
         return np.array([rx, ry, rz, vx, vy, vz], dtype=np.float64)
 
